@@ -6,7 +6,7 @@ From Coq Require Import Permutation.
 From Clikit Require Import Base.Prelude Base.Res Model.Conv Model.Format Model.Parser Model.Resolver Model.Run
      Model.Tokenizer Model.Gate Model.Switches Proofs.ResolverLemmas Proofs.SwitchesLemmas
      Proofs.HelpSamePageLemmas Proofs.HelpRunLemmas Proofs.SwitchesHelpLemmas Proofs.HelpAnywhereLemmas
-     Proofs.QuestionLemmas Model.Question Model.QuestionText.
+     Model.Question Model.QuestionText Proofs.SwitchesQuestionLemmas.
 
 (* Placement independence: the settings depend only on which switches are among the option tokens. *)
 Theorem settings_perm : forall debug l l', Permutation l l' -> io_settings debug l = io_settings debug l'.
@@ -93,6 +93,41 @@ Theorem settings_table_interaction : forall debug ots,
 Proof. exact interactive_table. Qed.
 Print Assumptions settings_table_interaction.
 Print Assumptions settings_table_ansi.
+
+(* With C18: "the no-interaction switch makes questions return their defaults".  The interaction flag of the run's IO
+   (line_interactive = s_interactive of the settings create_io computes from the line) is what Question.ask reads through
+   io.is_interactive(); the question models of C18 (Model/Question.v, Model/QuestionText.v) take it as their first
+   parameter.  For EVERY application, EVERY line carrying "-n" or "--no-interaction" among its option tokens (anywhere
+   before the first "--", whatever else is on the line, whatever the line resolves to) the flag is off, and every
+   question asked with it - choice (single / multi-select), confirmation (case-insensitive and case-sensitive pattern),
+   plain question with or without validator - returns its default, reads no line and writes nothing, whatever the
+   input stream holds (all_questions_return_defaults).  The flag is off ONLY for such lines
+   (interaction_flag_off_iff_switch), so without the switch, and with the switch behind "--", the input stays
+   interactive.
+   What is definitional here: settings_table_interaction (io_settings is a transcription of create_io, tied by
+   settings_match_source) and the non-interactive branch of the question models (C18 non_interactive_default,
+   confirmation_non_interactive, non_interactive_writes_nothing: the first test of ask()).  What the composition adds is
+   the line-level quantifier and the iff.  That the handler's questions are asked on the IO create_io built is observed by
+   the tie (oracle class no-interaction-question-default). *)
+Theorem no_interaction_switch_makes_questions_return_defaults : forall debug a toks sw,
+  sw = T_no_interaction \/ sw = T_n -> In sw (option_tokens toks) ->
+  line_interactive debug a toks = false /\ all_questions_return_defaults (line_interactive debug a toks).
+Proof. exact no_interaction_switch_lemma. Qed.
+Print Assumptions no_interaction_switch_makes_questions_return_defaults.
+Theorem no_interaction_switch_wherever_it_stands : forall debug a l1 sw l2,
+  sw = T_no_interaction \/ sw = T_n -> no_ddash l1 = true ->
+  all_questions_return_defaults (line_interactive debug a (l1 ++ sw :: l2)).
+Proof. exact no_interaction_switch_inserted. Qed.
+Print Assumptions no_interaction_switch_wherever_it_stands.
+Theorem interaction_flag_off_iff_switch : forall debug a toks,
+  line_interactive debug a toks = false <-> In T_no_interaction (option_tokens toks) \/ In T_n (option_tokens toks).
+Proof. exact line_interactive_iff. Qed.
+Print Assumptions interaction_flag_off_iff_switch.
+Theorem no_interaction_switch_after_ddash_does_not_act : forall debug a l (t : list str),
+  ~ In T_no_interaction (option_tokens l) -> ~ In T_n (option_tokens l) ->
+  line_interactive debug a l = true /\ line_interactive debug a (l ++ [DASH; DASH] :: t) = true.
+Proof. exact no_switch_stays_interactive. Qed.
+Print Assumptions no_interaction_switch_after_ddash_does_not_act.
 
 (* With C10: under the quiet switch no write path of any output emits anything - error reports included. *)
 Theorem quiet_silences : forall debug ots k a m f,
@@ -491,3 +526,19 @@ Proof.
   exists cfg2, a, [SRV], [T_name], [FOO; LA], X1, X2. vm_compute in E. inversion E; subst a. vm_compute. repeat split. discriminate.
 Qed.
 Print Assumptions help_switch_changes_the_default_refuted.
+
+(* ---- the no-interaction switch and the questions: a choice question (default "1") on the line "srv add -n x", asked on
+   an input holding the line "0": the default, nothing read; without the switch, and with the switch behind "--", the
+   typed answer ---- *)
+Definition ex_q : choiceq := {| q_choices := [ADD; DEL]; q_multi := false; q_default := Some [49%N]; q_attempts := None |}.
+Example no_interaction_example :
+  match build_app cfg2 with
+  | Ok a =>
+    let asks toks := ask_choice (line_interactive false a toks) ex_q [[48%N]] in
+    In T_n (option_tokens [SRV; ADD; T_n; LA]) /\
+    asks [SRV; ADD; T_n; LA] = {| o_end := Answered (AOne [49%N]); o_lines_read := 0; o_errors_printed := 0; o_prompts := 0 |} /\
+    asks [SRV; T_no_interaction; ADD] = {| o_end := Answered (AOne [49%N]); o_lines_read := 0; o_errors_printed := 0; o_prompts := 0 |} /\
+    asks [SRV; ADD; LA] = {| o_end := Answered (AOne ADD); o_lines_read := 1; o_errors_printed := 0; o_prompts := 1 |} /\
+    asks [SRV; ADD; [DASH; DASH]; T_n] = {| o_end := Answered (AOne ADD); o_lines_read := 1; o_errors_printed := 0; o_prompts := 1 |}
+  | Err _ => False end.
+Proof. vm_compute. repeat split; auto. Qed.
